@@ -43,6 +43,7 @@ package analysis
 //@   requires pos >= 0
 //@   modifies in[*]
 //@   ensures implies(pos >= len(in), result == in) && implies(pos < len(in), len(result) == len(in) - 1 && base(result) == base(in))
+//@   ensures implies(old(forall(k, 0, len(in), runeValid(in[k]))), forall(k, 0, len(result), runeValid(result[k])))
 
 //@ func InsertRune
 //@   props C19
